@@ -151,7 +151,58 @@ Example typed_somewhere :
         [Typed.XCont (Typed.KSlice (Convert.TInt "int8" true 8%Z) [Convert.VInt "int8" true 8%Z 44%Z]); Typed.XErr; Typed.XVal (Convert.VInt "int8" true 8%Z 44%Z)]).
 Proof. split; [repeat constructor | vm_compute; reflexivity]. Qed.
 
+
+(* ---- values, not places: what is handed on is the value a slot had then ---- *)
+
+Lemma eval_rvals_values rec : forall es s vacc k,
+  eval_rvals rec es s (map Imm vacc) k = eval_values rec es s vacc (fun vs s1 => k (map Imm vs) s1).
+Proof.
+  induction es as [|e r IH]; intros s vacc k; cbn [eval_rvals eval_values].
+  - now rewrite map_rev.
+  - destruct (rec (CExpr e) s) as [s1|er s1|a]; try reflexivity.
+    unfold detach. apply (IH s1 (deref (r_st s1) (r_rv s1) :: vacc) k).
+Qed.
+
+(* what a call hands its function is the list of the values its argument expressions had, each when it
+   was evaluated: evaluating the arguments as reflect.Values is evaluating them as values *)
+Theorem arguments_are_passed_as_values : forall rec es s k,
+  eval_rvals rec es s [] k = eval_values rec es s [] (fun vs s1 => k (map Imm vs) s1).
+Proof. intros rec es s k. exact (eval_rvals_values rec es s [] k). Qed.
+
+(* a detached value reads the same in every later store *)
+Theorem a_detached_value_no_longer_follows_its_slot : forall st st' r, deref st' (detach st r) = deref st r.
+Proof. reflexivity. Qed.
+
+(* unpacking a list: every target is assigned the value its element has when its turn comes *)
+Theorem unpacked_elements_are_assigned_as_values : forall rec l lr r rr s,
+  let_all rec (l :: lr) (r :: rr) s false =
+    match rec (CLet l) (set_rv s (Imm (deref (r_st s) r))) with
+    | Ok s1 => let_all rec lr rr s1 false
+    | Err e s1 => Err e s1
+    | Abort a => Abort a
+    end.
+Proof. reflexivity. Qed.
+
+(* return hands back a value *)
+Theorem a_returned_value_is_a_value : forall rec e s s1,
+  rec (CExpr e) s = Ok s1 ->
+  exists s2, run_return rec [e] s = Ok s2 /\ r_rv s2 = Imm (deref (r_st s1) (r_rv s1)) /\ r_st s2 = r_st s1.
+Proof. intros rec e s s1 H. unfold run_return. rewrite H. eexists; repeat split. Qed.
+
+(* a store at index len through something one cannot assign to fails before anything is written *)
+Theorem a_store_at_len_that_cannot_be_assigned_back_writes_nothing : forall rec ie l off len cap value s e s1,
+  is_place_expr ie = false ->
+  rec (CLet ie) (set_rv s (Imm (VSlice l off len cap))) = Err e s1 ->
+  let_item_slice rec ie l off len cap (VInt (Z.of_nat len)) value s = Err e s1.
+Proof.
+  intros rec ie l off len cap value s e s1 Hp He. unfold let_item_slice, try_to_int, try_to_int64. cbn [tri_bind].
+  rewrite Z.eqb_refl, Hp, He. reflexivity.
+Qed.
+
 Print Assumptions views_of_one_array_share_storage.
+Print Assumptions arguments_are_passed_as_values.
+Print Assumptions unpacked_elements_are_assigned_as_values.
+Print Assumptions a_store_at_len_that_cannot_be_assigned_back_writes_nothing.
 Print Assumptions append_beyond_capacity_moves_to_a_fresh_array.
 Print Assumptions index_store_out_of_range_changes_nothing.
 Print Assumptions maps_never_hold_a_key_twice.
